@@ -18,3 +18,5 @@ import Ymq.Props.C09Ext
 #print axioms Ymq.C09.reduce64_first_row
 #print axioms Ymq.C09.no_panic_ext_wide
 #print axioms Ymq.C09.inv_mod_total
+#print axioms Ymq.C09.reduce64_row_product
+#print axioms Ymq.C09.no_panic_ext_threshold
